@@ -37,7 +37,7 @@ fn holds(r: &IndexExprResult, truth: bool, x: u64) -> bool {
     }
 }
 
-// @harness props=C21,C19 tier=quick timeout=300 desc="NOT: if the operand keeps its guarantee w.r.t. T then the result keeps its guarantee w.r.t. ¬T"
+// @harness props=C21,C19,C20 tier=quick timeout=300 desc="NOT: if the operand keeps its guarantee w.r.t. T then the result keeps its guarantee w.r.t. ¬T"
 harness!(not_keeps_guarantee, 10, {
     let r = any_result();
     let x: u64 = vnd::any();
@@ -54,7 +54,7 @@ harness!(not_keeps_guarantee, 10, {
     }
 });
 
-// @harness props=C21,C19 tier=quick timeout=600 desc="AND: all 9 kind pairs, result guarantee w.r.t. Tl ∧ Tr"
+// @harness props=C21,C19,C20 tier=quick timeout=600 desc="AND: all 9 kind pairs, result guarantee w.r.t. Tl ∧ Tr"
 harness!(and_keeps_guarantee, 10, {
     let (l, r) = (any_result(), any_result());
     let x: u64 = vnd::any();
@@ -74,7 +74,7 @@ harness!(and_keeps_guarantee, 10, {
     }
 });
 
-// @harness props=C21,C19 tier=quick timeout=600 desc="OR: all 9 kind pairs, result guarantee w.r.t. Tl ∨ Tr"
+// @harness props=C21,C19,C20 tier=quick timeout=600 desc="OR: all 9 kind pairs, result guarantee w.r.t. Tl ∨ Tr"
 harness!(or_keeps_guarantee, 10, {
     let (l, r) = (any_result(), any_result());
     let x: u64 = vnd::any();
@@ -93,7 +93,7 @@ harness!(or_keeps_guarantee, 10, {
     }
 });
 
-// @harness props=C21,C19 tier=quick timeout=300 desc="a failed operand propagates as an error; leaf results carry the search result as allow list with the same guarantee"
+// @harness props=C21,C19,C20 tier=quick timeout=300 desc="a failed operand propagates as an error; leaf results carry the search result as allow list with the same guarantee"
 harness!(leaf_and_error_paths, 10, {
     let s = RowIdTreeMap::verif_any();
     let x: u64 = vnd::any();
